@@ -15,6 +15,12 @@ pub enum Bad {
     WrapMaskLen(i8),
     /// mask length wrong, passed to process_partial()
     WrapPartialMaskLen(i8),
+    /// wrong number of input channels, passed to the allocating wrapper process()
+    WrapInChans(i8),
+    /// active input channel short, passed to process()
+    WrapInShort(u8, u8),
+    /// wrong number of input channels, passed to process_partial_into_buffer(Some(..))
+    WrapPartialInChans(i8),
     /// partially false mask (bits) and active channel `ch` input short by one
     MaskedInShort(u32, u8),
     /// partially false mask (bits) and active channel `ch` output short by one
@@ -95,6 +101,9 @@ impl Op {
                 Bad::MaskLen(d) => format!("BAD(masklen,{})", delta(*d)),
                 Bad::WrapMaskLen(d) => format!("BAD(wrapmasklen,{})", delta(*d)),
                 Bad::WrapPartialMaskLen(d) => format!("BAD(wrappartialmasklen,{})", delta(*d)),
+                Bad::WrapInChans(d) => format!("BAD(wrapinchans,{})", delta(*d)),
+                Bad::WrapInShort(c, h) => format!("BAD(wrapinshort,{},{})", c, h),
+                Bad::WrapPartialInChans(d) => format!("BAD(wrappartialinchans,{})", delta(*d)),
                 Bad::MaskedInShort(m, c) => format!("BAD(maskedinshort,{:b},{})", m, c),
                 Bad::MaskedOutShort(m, c) => format!("BAD(maskedoutshort,{:b},{})", m, c),
             },
@@ -162,6 +171,9 @@ impl Op {
                     "masklen" => Bad::MaskLen(d(1)?),
                     "wrapmasklen" => Bad::WrapMaskLen(d(1)?),
                     "wrappartialmasklen" => Bad::WrapPartialMaskLen(d(1)?),
+                    "wrapinchans" => Bad::WrapInChans(d(1)?),
+                    "wrapinshort" => Bad::WrapInShort(u(1)?, u(2)?),
+                    "wrappartialinchans" => Bad::WrapPartialInChans(d(1)?),
                     "maskedinshort" => Bad::MaskedInShort(m(1)?, u(2)?),
                     "maskedoutshort" => Bad::MaskedOutShort(m(1)?, u(2)?),
                     _ => return Err(err()),
